@@ -153,7 +153,7 @@ def check_C03(A: Analysis, tier):
                     continue
                 rd.ob()
                 rd.inst(f"{site_func(ev)}: `{site_text(ev)[:60]}`")
-                if site_func(ev) not in (Q("delete_object"), Q("_untag_object")):
+                if site_func(ev) not in (Q("delete_object"), Q("_untag_object")) and not any(q in ev.ctx for q in (Q("delete_object"), Q("_untag_object"))):
                     rd.fail(site_func(ev), site_text(ev), "a pid reference is unbound outside delete_object / roll-back",
                             site_loc(A, ev))
     rules.append(rd)
